@@ -143,11 +143,27 @@ def cmd_units(prefixes, names=None):
     return out
 
 
-reg("C10", lambda tier: cmd_units("C10/"),
-    "bounded symbolic model checking of every mutating RunX entry point (all input modes) over a symbolic store: on every path that returns an error, the list of events handed to appendEvents/replace is empty; on success only the addressed item changes. One process, no crash.",
-    ["L1 world stubs (symbolic store; ParseTaskInput yields an arbitrary TaskInput or a parse error; validateResultPath / captureResultEvidence succeed or fail symbolically)", "plan and compact are covered by C11 / C05"])
+def c10_units(tier):
+    us = cmd_units("C10/")
+    us.append(Unit("plan-fails", ["c10.go", "c11.go"], "zzC10_PlanFails_A2", {"loop": 40, "rec": 3, "stubs": "hasCycle=zzHasCycleSpec,hasPlanCycle=zzPlanCycleSpec", "only": "C10/"},
+                   note="hasCycle / hasPlanCycle replaced by their summaries (checked under C07 / C11)",
+                   bounds="store of 1 item; plan of <=2 tasks with <=2 after entries each (repeated and redundant entries included), every field present/absent, parse error or not, lock busy or free: RunPlan returning an error has handed nothing to the log"))
+    return us
 
-reg("C16", lambda tier: cmd_units("C16/"),
+
+reg("C10", c10_units,
+    "bounded symbolic model checking of every mutating RunX entry point (all input modes) over a symbolic store: on every path that returns an error, the list of events handed to appendEvents/replace is empty; on success only the addressed item changes. One process, no crash.",
+    ["L1 world stubs (symbolic store; ParseTaskInput yields an arbitrary TaskInput or a parse error; validateResultPath / captureResultEvidence succeed or fail symbolically)", "plan: the plan-fails unit here plus C11; compact: C05"])
+
+def c16_units(tier):
+    us = cmd_units("C16/")
+    us.append(Unit("sequence-reply-n3", WORLD + ["c07.go"], "zzC07_LinkStep", {"loop": 32, "rec": 4, "stubs": "hasCycle=zzHasCycleSpec", "only": "C16/"},
+                   note="hasCycle replaced by its reachability summary (checked under C07)",
+                   bounds="store of 3 items, any acyclic same-kind edges, 1 tombstone; sequence | sequence rm with arbitrary ids and --json: the edge in the reply is what the post-state read shows"))
+    return us
+
+
+reg("C16", c16_units,
     "bounded symbolic model checking of the --json discipline: every stdout/stderr write of the real RunX functions is an output event; on success with --json exactly one JSON value and no text reaches stdout, on failure at most one JSON value and (with --json) no text.",
     ["output calls (fmt.Print*, writeJSON) are modelled as events; the cmd layer (exitErr -> stderr, exit code) is outside the claim", "truth of the reported fields: see DESIGN (new-task reply vs post-state)"])
 
@@ -263,6 +279,7 @@ def c01_units(tier):
     return [
         Unit("claim-oldest-ready", HSCMD, "zzCmd_ClaimOldest", f, bounds=CMD_BOUNDS + "; --epic filter any id"),
         Unit("lock-discipline-claim", HSFS, "zzC02_Claim", dict(FSFLAGS, only="C02/"), bounds="claim on the file model: read, choice and both writes inside one LOCK_EX|LOCK_NB section"),
+        Unit("claim-candidates-n4", ["c08.go"], "zzC08_ScopedReady_N4", {"loop": 24, "only": "C08/"}, bounds="N=4 items in any states / edges / epic membership (large enough for an epic gated by another epic that still has open work), ANY --epic value: the candidate list bare claim chooses from (real readyTasks / listTasks) holds only ready tasks in scope"),
     ]
 
 
@@ -333,6 +350,8 @@ def c20_post(results, violations, known_hits, inconclusive, samples):
     _json.dump({"values": {}, "meta": {}}, open(sc, "w"))
     rr = rp.run("zzC20_CleanModelSelfTest", sc)
     rp.close()
+    import shutil as _sh
+    _sh.rmtree(_os.path.dirname(sc), ignore_errors=True)
     ok = rr.get("ok") and not rr.get("failed") and not rr.get("panic")
     samples.append({"clean_model_self_test": "agrees with path/filepath.Clean on every string of <=7 bytes over the alphabet" if ok else "FAILED", "raw": (rr.get("raw") or rr.get("err") or "")[-400:]})
     if not ok:
